@@ -183,6 +183,10 @@ def check_case(case):
         dsg = 1.0 if T[-1] > T[0] else -1.0
         k1, k2 = n // 4, (3 * n) // 4
         bounds = [(T[k1], T[k2]), (T[k1] + (T[k1 + 1] - T[k1]) * dtype(0.5), T[k2] + (T[k2 - 1] - T[k2]) * dtype(0.5)), (T[1], T[n - 2]), (T[0], T[k2]), (T[k1], T[-1])]
+        if float(T.min()) < 0.0 < float(T.max()):
+            # a bound that is exactly zero (as the run's float type, a python float, a python int) in the interior of a run through t = 0
+            for z in (dtype(0), 0.0, 0):
+                bounds += [(z, T[-1]), (T[0], z), (z, T[k2]) if (T[k2] - 0) * dsg > 0 else (T[k1], z)]
         for (qa, qb) in bounds:
             r.n += 1
             try:
@@ -213,7 +217,7 @@ def run(ctx):
     ctx.assumptions += ["ties between two equally near samples accept either neighbour (distances compared exactly in longdouble)",
                         "whole-run slices are written in run order ([t0:tf], open-ended, with a step)", "only python ints are 'integer indices'"]
     cases = []
-    spans = [(0.0, 2.0), (2.0, 0.0), (1.0, -1.0), (-3.0, -1.0), (-1.0, -3.0)]
+    spans = [(0.0, 2.0), (2.0, 0.0), (1.0, -1.0), (-3.0, -1.0), (-1.0, -3.0), (-1.0, 1.0)]
     for m, dt0 in (("EulerSolver", 0.25), ("RK4Solver", 0.25), ("RK45CKSolver", 0.25), ("DOPRI45", 0.5)) + ((("ABAs5o6HSolver", 0.25), ("ImplicitMidpoint", 0.25), ("RadauIIA5", 0.25)) if not ctx.quick else ()):
         for sp in spans:
             for dense in (False, True):
